@@ -57,6 +57,18 @@ def rule_hidden(P) -> RuleResult:
 
 
 # ----------------------------------------------------------------------
+# R-TARGETNODE (C02, C12): the part of R-HIDDEN that is about accumulation - every SELECT target, also one that repeats an
+# earlier target, is compiled to an evaluator node of its own: an aggregate node is the accumulator of its target, and a node
+# shared by two targets is allocated and updated twice per row
+
+def rule_targetnode(P) -> RuleResult:
+    res = RuleResult('R-TARGETNODE')
+    from .sx_compiler import select_target_cases
+    select_target_cases(P, res)
+    return res
+
+
+# ----------------------------------------------------------------------
 # R-VISFILTER (C07, C08)
 
 def rule_visfilter(P) -> RuleResult:
